@@ -381,7 +381,10 @@ def mk_atoms(facts):
     return atoms
 
 
-def explore(stmts, atoms, names=(), upto=None, max_paths=20000, exceptions=False, env0=None, may_raise=None, is_subclass=None):
+NONNULL = type('NonNull', (), {'__repr__': lambda self: '<not None>'})()
+
+
+def explore(stmts, atoms, names=(), upto=None, max_paths=20000, exceptions=False, env0=None, may_raise=None, is_subclass=None, nonnull=(ast.Tuple, ast.List, ast.Dict, ast.Set, ast.JoinedStr)):
     """Feasible control-flow paths of `stmts` under the 3-valued atom valuation `atoms(expr)` (branches whose test evaluates to a constant are
     pruned; constants assigned to plain locals on the path are tracked, so `flag = True ... if flag:` is followed).  Returns one dict per
     path: kind ('return'/'raise'/'fall'/'continue'/'break' or 'upto'), stmt (the terminating Return/Raise statement or None),
@@ -418,6 +421,8 @@ def explore(stmts, atoms, names=(), upto=None, max_paths=20000, exceptions=False
             val = node.ast.value
             cenv = dict(cenv)
             cenv[nm] = val.value if isinstance(val, ast.Constant) else eval3(val, cenv, atoms)
+            if cenv[nm] is UNK and isinstance(val, nonnull):
+                cenv[nm] = NONNULL        # a display / subscript of a table of tuples is not None: `x is None` tests on it are decided
             if names is None or nm in names:
                 env = dict(env)
                 env[nm] = val
